@@ -9,7 +9,7 @@ from ..repo import roberta_generator as G, conditionalrewards as CR, stochastic_
 from ..universe import Product
 
 PROP = "C08"
-TRIPLES = [(0.1, 0.05, 0.25), (0.5, 0.3, 0.2), (0.125, 0.0371, 0.333)]     # robot, light, tile break probabilities (pairwise distinct; the third is not a whole percentage)
+TRIPLES = [(0.1, 0.05, 0.25), (0.5, 0.3, 0.2), (0.125, 0.0371, 0.333), (0.3, 0.5, 0.5)]     # robot, light, tile break probabilities (first two pairwise distinct; the third not whole percentages; the fourth has p == 1 - p for light and tile)
 VARIANTS = (("A", "game_a"), ("B", "game_b"), ("C", "game_c"))
 
 
@@ -98,6 +98,15 @@ def work(shard):
             L, W = shard["shape"]
             prod = Product([tile_alphabet(shard["rewset"])] * (L * W))
             it = (decode(L, W, combo) for combo in prod.iter_range(shard["lo"], shard["hi"]))
+        elif shard["kind"] == "rewards":
+            # reward layouts through both entry points: arrows fixed, rewards from a wider alphabet in every position
+            L, W = shard["shape"]
+            vals = shard["values"]
+            it = []
+            for combo in itertools.product(vals, repeat=L * W):
+                rew = [[combo[i * W + j] for j in range(W)] for i in range(L)]
+                moves = [[(1 if (i + j) % 2 == 0 else 2) for j in range(W)] for i in range(L)]
+                it.append((moves, rew, [[0] * W for _ in range(L)]))
         else:
             it = []
             for (w, l, seed, fd) in shard["boards"]:
@@ -140,6 +149,10 @@ def plan(ctx):
                            "entry_points": ["write_robots"] + (["create_sg_from_board"] if manual else [])})
             for lo, hi in par.ranges(size, ctx.jobs * 3 if size > 2000 else 1):
                 shards.append({"kind": "enum", "shape": shape, "rewset": rewset, "lo": lo, "hi": hi, "manual": manual})
+    for shape, vals in (((2, 2), (0, 1, 2, 5)), ((2, 3), (0, 3, 5)), ((3, 2), (0, 3, 5))):
+        shards.append({"kind": "rewards", "shape": shape, "values": vals, "manual": True, "lo": 0})
+        spaces.append({"reward_layout_boards": len(vals) ** (shape[0] * shape[1]), "shape_length_x_width": list(shape), "reward_values": list(vals),
+                       "entry_points": ["write_robots", "create_sg_from_board"]})
     rnd = []
     sizes = [(2, 3), (3, 3), (4, 2)] if not ctx.thorough else [(2, 3), (3, 3), (4, 2), (3, 4), (5, 5), (6, 6), (1, 12), (12, 1)]
     seeds = range(ctx.seed, ctx.seed + (3 if not ctx.thorough else 12))
@@ -153,7 +166,7 @@ def plan(ctx):
     return shards, spaces
 
 
-RULE = ("every board of the listed shapes over the tile alphabet {arrow <-,<->,->,v} x {firm, loose} x rewards, x 3 probability triples (one with values that are not whole percentages) x 3 games, "
+RULE = ("every board of the listed shapes over the tile alphabet {arrow <-,<->,->,v} x {firm, loose} x rewards, x 4 probability triples (one with values that are not whole percentages, one with probabilities equal to their complement) x 3 games, "
         "written by the real generator to a file and read back by the solver's reader, is compared with the rule model by partition "
         "refinement; non-trivial = one-column board, or a board with a down-only or a loose tile")
 ASSUME = ["the rule model is the harness author's reading of the property text: a robot failure re-lands the robot on its own tile "
